@@ -18,6 +18,11 @@ CHECKS = {
         text="QGMRES.tla models cycles, lucky breakdown at the grade, stop rule, cap, preconditioner (incl. swallowed LU fault) and zero rhs; TLC checks Truthful, ConvSound, HistMono, AtMostN, ZeroRhsZero, PrecIndependent on all behaviours (N <= 4 quick / 6 thorough). The harness builds systems of every grade 1..N (Hermitian spectra with repeats from exact unitary similarity, scaled/quaternion-scalar identity, identity+rank1, triangular, repeated diagonal, unitary, generic), all caps 0..N/None, both preconditioners, dense/sparse, scalings, b=0, and validates each run's trace: property clauses give VIOLATION, mechanism mismatches (cycle order, return enabled, iterations = grade) give DRIFT. Per-cycle optimality is checked against an independent complex-adjoint least-squares oracle.",
         note="Trusted: oracle arithmetic (numpy, complex adjoint), grade computation, Lg quantisation with stated slacks (converged => true residual <= 4 tol x cond for preconditioned runs; optimality ratio <= 1+2^-7). n <= 6, cond <= ~1e3.",
         design_ref="5/C04"),
+    "C02": dict(
+        technique="TLC trace validation of recorded embedding matrices (EmbedTrace.tla): laws evaluated by TLC on the matrices the code returned",
+        text="For real_expand (interleaved), Realp (component-blocked, matrix and scalar form) and quaternion_to_complex_adjoint the harness records the code's integer image of every basis element, every conformable basis pair (shapes <= 2 quick / 3 thorough), signed unit pairs (cancelling sums), a catalogue (all 81 sign patterns, pure-imaginary, cancelling components) and random integer matrices; TLC computes every matrix product / transpose / sum and checks additivity, multiplicativity, *-preservation, norm scaling and the contract round trip; component split/merge round trips (A2A0123, solver conversions dense+sparse, qslst split/stack) likewise. Layout equality with the documented layouts is a DRIFT clause.",
+        note="Trusted: TLC's integer arithmetic, the oracle product used to form A*B (itself re-checked by TLC in each event). Float inputs only: bitwise round trip + product law to 64 units.",
+        design_ref="5/C02"),
 }
 
 NOT_YET = "check not built yet in this round; see DESIGN.md section 5"
